@@ -44,6 +44,9 @@ func init() {
 			"(R19.3 = R20.4) only destinations and backups are mutated; (R19.4) the bundle separator \";\\n\" is passed exactly under the JavaScript media type test; (R19.5 = R20.5) a file minified onto itself leaves no backup behind because the backup's creation and removal names agree.",
 		Run: runC19,
 	})
+	mutant(&Mutant{Name: "c19-mirror-path-may-leave-the-output", Property: "C19", File: "cmd/minify/main.go",
+		Old: "\t\t} else if rel == \"..\" || strings.HasPrefix(rel, \"..\"+string(os.PathSeparator)) {\n\t\t\treturn Task{}, fmt.Errorf(\"%v is not inside %v and would be written outside of %v\", input, root, output)\n", New: "",
+		Rule: "R19.17", Construct: "destination stays inside the output directory"})
 	mutant(&Mutant{Name: "c19-mirror-path-by-prefix-cut", Property: "C19", File: "cmd/minify/main.go",
 		Old: "\t\toutput = filepath.Join(output, rel)\n", New: "\t\t_ = rel\n\t\toutput = filepath.Join(output, strings.TrimPrefix(input, root))\n",
 		Rule: "R19.16", Construct: "destination under a directory output"})
@@ -82,6 +85,9 @@ func init() {
 		Old:  "\t\t\t\tif err != nil {\n\t\t\t\t\tError.Println(err)\n\t\t\t\t\treturn false\n\t\t\t\t}\n\t\t\t\tbackup = i\n\t\t\t\tbreak\n",
 		New:  "\t\t\t\tif err != nil {\n\t\t\t\t\tError.Println(err)\n\t\t\t\t}\n\t\t\t\tbackup = i\n\t\t\t\tbreak\n",
 		Rule: "R20.1", Construct: "backup rename"})
+	mutant(&Mutant{Name: "c20-output-may-be-another-tasks-input", Property: "C20", File: "cmd/minify/main.go",
+		Old: "\t\tif j, ok := srcs[filepath.Clean(task.dst)]; ok && i != j {\n\t\t\treturn nil, nil, fmt.Errorf(\"output %v of %v is also an input\", task.dst, task.srcs[0])\n\t\t}\n", New: "\t\t_, _ = i, task\n",
+		Rule: "R20.10", Construct: "destinations checked against all sources"})
 	mutant(&Mutant{Name: "c20-cleanup-recognises-backup-by-name", Property: "C20", File: "cmd/minify/main.go",
 		Old: "\t\tif i == backup {\n\t\t\tif err == nil {", New: "\t\tif _ = backup; srcs[i] == t.dst+\".bak\" {\n\t\t\tif err == nil {",
 		Rule: "R20.9", Construct: "only for the backup made by this run"})
@@ -193,6 +199,7 @@ func runC20(c *Ctx) {
 	c.alsoUnder(map[string]string{"R19.1": "R20.7"}, nil, func() { c.r191(x) })
 	c.r208(x, "R20.8")
 	c.r209(x, "R20.9")
+	c.r2010(x)
 }
 
 // R20.8 (= R19.11): taking the backup does not destroy a file that is already there.
@@ -1178,6 +1185,7 @@ func runC19(c *Ctx) {
 	c.r209(x, "R19.14")
 	c.r1915(x)
 	c.r1916(x)
+	c.r1917(x)
 	// a bundle written onto one of its inputs: the input is truncated by the open before the lazy reader gets to it,
 	// so the output silently lacks that file — the ordering rule of C20 is a condition of "the library's output" too
 	c.alsoUnder(map[string]string{"R20.1": "R19.13"}, nil, func() { c.r201(x) })
@@ -2122,4 +2130,106 @@ func (c *Ctx) r1916(x *cliCtx) {
 		c.R.Check(good, rule, fmt.Sprintf("main.NewTask/destination under a directory output#%d", n), c.pos(call), "filepath.Join(output, filepath.Rel(root, input))", why+": the destination is not the path of the input relative to its root (`minify -o out/ .theme.css` writes out/theme.css)")
 	}
 	c.R.Floor(rule, "joins onto the output directory in NewTask", n, 1)
+}
+
+// R19.17: a mirrored file lands inside the output directory.
+func (c *Ctx) r1917(x *cliCtx) {
+	const rule = "R19.17"
+	c.R.Rule(rule, "filepath.Rel(root, input) starts with `..` when the input does not lie under the root — which happens for the input `..` itself, whose lexical parent (filepath.Dir) is `.`. Joined onto the output directory such a path leaves it (`minify -r -o out/ ..` writes ./a.css next to out/). In cmd/minify.NewTask every path from the filepath.Rel call to the filepath.Join onto the output passes a test of the relative path against `..`")
+	pk, info := x.pk, x.info
+	fd := c.fn(rule, pk, "NewTask")
+	if fd == nil {
+		return
+	}
+	g := c.graph(pk, fd)
+	var relN, joinN *flow.Node
+	relName := ""
+	for _, y := range g.Nodes {
+		a := y.Ast()
+		if a == nil || y.Kind != flow.KStmt {
+			continue
+		}
+		if calls := findCalls(info, a, false, "path/filepath.Rel"); len(calls) > 0 {
+			relN = y
+			if as, ok := y.Stmt.(*ast.AssignStmt); ok && len(as.Lhs) >= 1 {
+				relName = nospace(str(as.Lhs[0]))
+			}
+		}
+		for _, call := range findCalls(info, a, false, "path/filepath.Join") {
+			if len(call.Args) == 2 && nospace(str(call.Args[1])) == relName && relName != "" {
+				joinN = y
+			}
+		}
+	}
+	if relN == nil || joinN == nil {
+		c.R.Unres(rule, "main.NewTask/mirror path", c.pos(fd), "filepath.Rel / filepath.Join pair not found (see R19.16)")
+		return
+	}
+	tests := func(q *flow.Node) bool {
+		if q.Kind != flow.KCond {
+			return false
+		}
+		s := str(q.Expr)
+		return strings.Contains(s, relName) && strings.Contains(s, `".."`)
+	}
+	p := g.Path(flow.Search{From: []*flow.Node{relN}, Goal: func(q *flow.Node) bool { return q == joinN }, Avoid: tests})
+	c.R.Check(p == nil, rule, "main.NewTask/destination stays inside the output directory", c.pos(joinN.Ast()), "the relative path is tested against `..` before it is joined", "the path of the input relative to its root is joined onto the output directory without a test for a leading `..`: for the input `..` (root `.`) the destination lies outside the output directory")
+}
+
+// R20.10: no task writes onto the input of another task.
+func (c *Ctx) r2010(x *cliCtx) {
+	const rule = "R20.10"
+	c.R.Rule(rule, "tasks run concurrently and each protects only its own sources (the SameFile test of minify() compares t.dst with t.srcs). With the output directory inside the input tree — `minify -r -o dir/sub/ dir/` — the destination of dir/x.js is dir/sub/x.js, which is itself the source of another task: it is truncated and rewritten without a backup before or while that task reads it, and its original content exists nowhere afterwards. In cmd/minify.createTasks the successful return is dominated by a loop over the tasks that looks a task's dst up in a collection keyed by source paths (an index expression or a call whose argument mentions .dst), whose failure outcome returns an error")
+	pk, info := x.pk, x.info
+	fd := c.fn(rule, pk, "createTasks")
+	if fd == nil {
+		return
+	}
+	g := c.graph(pk, fd)
+	// success returns: last result is nil
+	var rets []*flow.Node
+	for _, y := range g.Nodes {
+		if rs := retStmt(y); rs != nil && len(rs.Results) > 0 && isNilExpr(rs.Results[len(rs.Results)-1]) {
+			// only returns in the function itself, not in the walk literal
+			if c.enclosingLit(rs) == nil {
+				rets = append(rets, y)
+			}
+		}
+	}
+	if len(rets) == 0 {
+		c.R.Unres(rule, "main.createTasks/success return", c.pos(fd), "no `return …, nil` found")
+		return
+	}
+	crossCheck := func(q *flow.Node) bool {
+		if q.Kind != flow.KRange {
+			return false
+		}
+		rs, ok := q.Stmt.(*ast.RangeStmt)
+		if !ok || !strings.Contains(nospace(str(rs.X)), "tasks") {
+			return false
+		}
+		hit := false
+		ast.Inspect(rs.Body, func(z ast.Node) bool {
+			switch e := z.(type) {
+			case *ast.IndexExpr:
+				if _, isMap := info.TypeOf(e.X).Underlying().(*types.Map); isMap && strings.Contains(nospace(str(e.Index)), ".dst") {
+					hit = true
+				}
+			case *ast.CallExpr:
+				if strings.HasSuffix(calleeName(info, e), ".SameFile") && len(e.Args) == 2 {
+					a0, a1 := nospace(str(e.Args[0])), nospace(str(e.Args[1]))
+					if strings.Contains(a0+a1, ".dst") && (strings.Contains(a0+a1, "srcs") || strings.Contains(a0+a1, "src")) {
+						hit = true
+					}
+				}
+			}
+			return true
+		})
+		return hit
+	}
+	for i, r := range rets {
+		r := r
+		p := g.Path(flow.Search{From: []*flow.Node{g.Entry}, Goal: func(q *flow.Node) bool { return q == r }, Avoid: crossCheck})
+		c.R.Check(p == nil, rule, fmt.Sprintf("main.createTasks/destinations checked against all sources#%d", i+1), c.pos(r.Ast()), "a loop over the tasks looks every dst up among the sources before the tasks are returned", "the tasks are handed out without comparing any destination with the sources of the other tasks: with the output directory inside the input tree a file that is still to be read is overwritten (`minify -r -o dir/sub/ dir/` loses dir/sub/x.js)")
+	}
 }
